@@ -383,6 +383,10 @@ func (c *c14Ctx) replayLine(fx func() []*c14Fixture, line string, pool func() *c
 		if len(w) == 3 {
 			c.opSD([]byte(unhx(w[1])), []byte(unhx(w[2])))
 		}
+	case "ns":
+		if len(w) == 2 {
+			c.opNS(unhx(w[1]))
+		}
 	case "rw":
 		if len(w) == 2 {
 			c.opRW(w[1])
@@ -716,7 +720,7 @@ func runC14(r *Run, rng *Rng, replay string) {
 		}
 	}
 	if !thorough {
-		sel = c14Select(all, r.Seed, map[string]int{"xml": 2000, "part": 160, "zip": 260, "cfb": 220, "stream": 220, "ixml": 160})
+		sel = c14Select(all, r.Seed, map[string]int{"xml": 2000, "part": 160, "zip": 260, "cfb": 220, "stream": 220, "ixml": 160, "nsroot": 250})
 	}
 	{
 		var wit []*c14Mut
@@ -725,6 +729,22 @@ func runC14(r *Run, rng *Rng, replay string) {
 			if m := c14ParseMut(fx(), strings.Fields(l)); m != nil {
 				wit = append(wit, m)
 				have[m.line()] = true
+			}
+		}
+		// regression mutants for the Strict scanner: the blank between two namespace declarations of the root
+		// element flipped to '!' (lowest bit), in every XML part of the Strict fixture that has one
+		for _, f := range fx() {
+			if f.name != "gen-strict" {
+				continue
+			}
+			for _, p := range f.parts {
+				if k := bytes.Index(p.data, []byte(`" xmlns`)); k > 0 && c14IsXML(p.name) {
+					m := &c14Mut{fix: f, level: "nsroot", part: p.name, kind: "nsbyte", a: k + 1, val: 0, path: "/root#attrs"}
+					if !have[m.line()] {
+						wit = append(wit, m)
+						have[m.line()] = true
+					}
+				}
 			}
 		}
 		for _, m := range sel {
